@@ -66,3 +66,32 @@ Definition py_sorted_by {A} (key : A -> pyval * Z) (l : list A) : res (list A) :
 Definition nx_get_node_attributes (g : graph) (name : pystr) : list (Z * pyval) := get_node_attributes g name.
 Definition nx_relabel_nodes_copy (g : graph) (m : list (Z * Z)) : graph := relabel_copy g m.
 Definition nx_set_node_attributes (g : graph) (d : list (Z * pyval)) (name : pystr) : graph := set_nodes_from g name d.
+
+(** ------------------------------------------------------------------ more builtins (merge_graphs) *)
+(** d.get(k, default) / d[k] / k in d on an attribute dict *)
+Definition attrs_get (a : attrs) (k : pystr) (default : pyval) : pyval :=
+  match aget k a with Some v => v | None => default end.
+Definition attrs_getitem (a : attrs) (k : pystr) : res pyval := of_option (aget k a) EKey.
+(** v[i] for a constant i >= 0: list/tuple by position, str by character, dict by the key i *)
+Definition py_getitem_pv (v : pyval) (i : Z) : res pyval :=
+  match v with
+  | VList l | VTup l => of_option (nth_error l (Z.to_nat i)) EIndex
+  | VStr s => match nth_error s (Z.to_nat i) with Some c => Ok (VStr [c]) | None => Err EIndex end
+  | VDict d => match find (fun kv => pyval_eqb (fst kv) (VInt i)) d with Some kv => Ok (snd kv) | None => Err EKey end
+  | _ => Err EType
+  end.
+(** v + n for an int n: ints and bools add; floats are not computed with in these models (TypeError, as
+    every other type) *)
+Definition py_add_pv_int (v : pyval) (n : Z) : res Z := z <- as_int v ;; Ok (z + n).
+(** max(v) of a Python value: a list/tuple of ints (ValueError when empty, TypeError for other contents) *)
+Definition py_max_pv (v : pyval) : res Z := l <- ints_of v ;; py_max l.
+Definition list_truthy {A} (l : list A) : bool := match l with [] => false | _ => true end.
+
+(** ------------------------------------------------------------------ more networkx *)
+Definition nx_len (g : graph) : Z := Z.of_nat (length g).
+Definition nx_nodes (g : graph) : list Z := node_keys g.
+Definition nx_edges (g : graph) : list (Z * Z) := edges_list g.
+Definition nx_node_attrs (g : graph) (k : Z) : res attrs := node_attrs g k.
+Definition nx_edge_attrs (g : graph) (u v : Z) : res attrs := edge_attrs g u v.
+Definition nx_add_node (g : graph) (k : Z) (a : attrs) : graph := add_node g k a.
+Definition nx_add_edge (g : graph) (u v : Z) (a : attrs) : graph := add_edge g u v a.
